@@ -83,7 +83,12 @@ class DistUnit(corr.Unit):
         for _ in range(n):
             feats = set(k for k in ("fixed", "price", "unaligned", "minpower", "number_cs", "limit") if rng.random() < 0.4)
             js = scen.gen_scenario(rng, n_gc=rng.choice([1, 2, 3]), n_veh=rng.randint(1, 6), features=feats, steps=rng.choice([6, 12, 24]))
-            out.append({"js": js, "options": rng.choice([{}, {"ALLOW_NEGATIVE_SOC": True}, {"CONCURRENCY": 0.5}])})
+            opts = dict(rng.choice([{}, {"ALLOW_NEGATIVE_SOC": True}, {"CONCURRENCY": 0.5}]))
+            if rng.random() < 0.35:
+                # options for one kind of sub-strategy only: they must reach exactly that kind
+                which = rng.choice(["strategy_options_opps", "strategy_options_deps"])
+                opts[which] = rng.choice([{"PRICE_THRESHOLD": 10}, {"PRICE_THRESHOLD": -1}, {"PRICE_THRESHOLD": 0.3}])
+            out.append({"js": js, "options": opts})
         return out
 
     def run_impl(self, case):
@@ -99,7 +104,9 @@ class DistUnit(corr.Unit):
             typ = css[0].split("_")[-1]
             sub = sub_scenario(js, gid)
             strat = "balanced" if typ == "deps" else "greedy"
-            res["subs"][gid] = {"type": typ, "run": sim.run_record(sub, strat, case["options"]), "alone": sim.run_record(sub, "distributed", case["options"])}
+            plain = {k: v for k, v in case["options"].items() if not k.startswith("strategy_options_")}
+            plain.update(case["options"].get("strategy_options_" + typ, {}))          # what this kind of sub-strategy is meant to get
+            res["subs"][gid] = {"type": typ, "run": sim.run_record(sub, strat, plain), "alone": sim.run_record(sub, "distributed", case["options"])}
         return res
 
     def emit(self, case, out):
